@@ -22,6 +22,7 @@ import sys
 import tempfile
 
 VERIF = os.path.dirname(os.path.dirname(os.path.abspath(__file__)))
+STRUCTURAL = "--structural" in sys.argv
 REPO = "/repo"
 
 
@@ -127,6 +128,32 @@ def mutants(rel, qual):
     idx = 1 if has_doc else 0
     f2.body.insert(idx, ast.parse("_audit_marker = None").body[0])
     res.append(("add-stmt", ast.unparse(t)))
+    if STRUCTURAL:
+        # extract the value of the last top-level `return <call/expr>` into a local
+        t = ast.parse(src)
+        f2 = find(t, qual)
+        rets = [(i, st) for i, st in enumerate(f2.body) if isinstance(st, ast.Return) and st.value is not None and not isinstance(st.value, (ast.Name, ast.Constant))]
+        if rets:
+            i, st = rets[-1]
+            f2.body[i:i + 1] = [ast.Assign(targets=[ast.Name(id="_extracted_result", ctx=ast.Store())], value=st.value, lineno=0), ast.Return(value=ast.Name(id="_extracted_result", ctx=ast.Load()))]
+            ast.fix_missing_locations(t)
+            res.append(("extract-return", ast.unparse(t)))
+        # dead statement before the last statement
+        t = ast.parse(src)
+        f2 = find(t, qual)
+        if len(f2.body) >= 2:
+            f2.body.insert(len(f2.body) - 1, ast.parse("_audit_marker = None").body[0])
+            res.append(("add-stmt-mid", ast.unparse(t)))
+        # first `if c: A else: B` with both branches -> `if not c: B else: A`
+        t = ast.parse(src)
+        f2 = find(t, qual)
+        for n in ast.walk(f2):
+            if isinstance(n, ast.If) and n.orelse and not (len(n.orelse) == 1 and isinstance(n.orelse[0], ast.If)):
+                n.test = ast.UnaryOp(op=ast.Not(), operand=n.test)
+                n.body, n.orelse = n.orelse, n.body
+                ast.fix_missing_locations(t)
+                res.append(("flip-if", ast.unparse(t)))
+                break
     return res
 
 
